@@ -245,6 +245,29 @@ func execPool(o hx.Op) string {
 	return "drain=" + strings.Join(drains, "|")
 }
 
+// execDbo: defaultBackoff adds a random 1..1000 ms; the whole seconds of (d - 1ns), rounded down, do not
+// depend on it. Three calls must agree.
+func execDbo(o hx.Op) string {
+	ra := o.Str("ra")
+	hdr := ra
+	if ra == "bad" {
+		hdr = "soon"
+	}
+	var first int64
+	for i := 0; i < 3; i++ {
+		d := int64(acme.VerifDefaultBackoff(o.Int("n"), ra != "nil", hdr)) - 1
+		sec := d / 1e9
+		if d%1e9 < 0 {
+			sec--
+		}
+		if i > 0 && sec != first {
+			return "unstable"
+		}
+		first = sec
+	}
+	return fmt.Sprintf("sec=%d", first)
+}
+
 func exec(line string) string {
 	o := hx.Parse(line)
 	switch o.Cmd {
@@ -252,6 +275,8 @@ func exec(line string) string {
 		return execHTTP(o)
 	case "pool":
 		return execPool(o)
+	case "dbo":
+		return execDbo(o)
 	}
 	return "bad-op"
 }
@@ -343,6 +368,7 @@ func genHTTP(g *hx.Gen) {
 		cancel = r.Range(1, 4)
 		g.Stat("ctx.cancelled-during-backoff")
 	}
+	g.Stat("op.http")
 	g.Emit("http nurl=%d kid=%d bo=%d cancel=%d calls=%s resp=%s", r.Intn(4)/3^1, r.Intn(2), bo, cancel, strings.Join(calls, ","), hx.JoinStrs(resp))
 }
 
@@ -382,13 +408,26 @@ func genPool(g *hx.Gen) {
 		}
 	}
 	ops = append(ops, "d")
+	g.Stat("op.pool")
 	g.Emit("pool ops=%s", strings.Join(ops, ","))
 }
 
 func gen(g *hx.Gen) {
 	n := g.Count(6000, 500000)
 	for i := 0; i < n; i++ {
-		if i%10 == 9 {
+		if i%40 == 7 {
+			ra := "nil"
+			switch g.R.Intn(6) {
+			case 0, 1:
+				ra = strconv.Itoa(g.R.Range(-5, 120))
+				g.Stat("dbo.retry-after-seconds")
+			case 2:
+				ra = "bad"
+				g.Stat("dbo.retry-after-unparsable")
+			}
+			g.Emit("dbo n=%d ra=%s", hx.Pick(g.R, []int{-3, 0, 1, 2, 3, 4, 5, 6, 10, 29, 30, 31, 32, 64, 1000}), ra)
+			g.Stat("dbo.default-backoff")
+		} else if i%10 == 9 {
 			genPool(g)
 		} else {
 			genHTTP(g)
